@@ -152,31 +152,53 @@ func applySites(r *Report) map[ssa.Instruction][]LSite {
 // to C18).
 func ruleL1(r *Report, exempt map[string]bool) {
 	h := r.Rule("L1", "L", "every call that applies operations to a registered column (`(*column).Apply`, or `Column.Apply` outside the wrapper) holds the block's exclusive latch on every call path", 3)
-	by := map[string][]ssa.Instruction{}
+	type at struct {
+		ins ssa.Instruction
+		s   *LSite
+	}
+	by := map[string][]at{}
 	sites := applySites(r)
-	for ins := range sites {
-		by[fnName(ins.Parent())] = append(by[fnName(ins.Parent())], ins)
+	for ins, ss := range sites {
+		for i := range ss {
+			n := siteOwner(ins, &ss[i])
+			by[n] = append(by[n], at{ins, &ss[i]})
+		}
 	}
 	for _, n := range sortedKeys(by) {
-		if exempt[fnName(topFn(by[n][0].Parent()))] {
+		if exempt[fnName(topFn(by[n][0].ins.Parent()))] {
 			continue
 		}
+		sort.Slice(by[n], func(i, j int) bool { return by[n][i].ins.Pos() < by[n][j].ins.Pos() })
 		var bad *LSite
 		var badIns ssa.Instruction
-		nctx := 0
-		for _, ins := range by[n] {
-			nctx += len(sites[ins])
-			if s := worstSite(sites[ins], func(h heldSet) bool { return h.hasW("latch") }); s != nil && bad == nil {
-				bad, badIns = s, ins
+		for _, a := range by[n] {
+			if !a.s.Held.hasW("latch") && bad == nil {
+				bad, badIns = a.s, a.ins
 			}
 		}
 		if bad != nil {
 			o := h.Bad(n, r.P.InstrPos(badIns), "column Apply reached without the exclusive block latch")
 			setWitness(o, bad)
 		} else {
-			h.OK(n, r.P.InstrPos(by[n][0]), fmt.Sprintf("latch:W held in all %d contexts", nctx))
+			h.OK(n, r.P.InstrPos(by[n][0].ins), fmt.Sprintf("latch:W held in all %d contexts", len(by[n])))
 		}
 	}
+}
+
+// siteOwner names the construct a lock obligation is keyed by: the function containing the site,
+// or — when that is a mere helper (deep.go) — the nearest caller on the analysed path that is not,
+// so that moving statements into a helper does not rename the obligation.
+func siteOwner(ins ssa.Instruction, s *LSite) string {
+	fn := ins.Parent()
+	if !isHelper(topFn(fn)) {
+		return fnName(fn)
+	}
+	for c := s.Ctx; c != nil; c = c.Parent {
+		if !isHelper(topFn(c.Fn)) {
+			return fnName(c.Fn)
+		}
+	}
+	return fnName(fn)
 }
 
 func sortedKeys[V any](m map[string]V) []string {
@@ -245,7 +267,7 @@ func ruleL2(r *Report) {
 
 func ruleShard(r *Report) {
 	L := r.Shared.Lockset()
-	h := r.Rule("C10.shard", "L+def-use", "in every function that takes the block latch, the shard is the block that the critical section works on: every Chunk-typed value used between acquire and release is the shard value, and a cursor positioned there lies in that block", 6)
+	h := r.Rule("C10.shard", "L+def-use", "in every function that takes the block latch, the shard is the block that the critical section works on: every Chunk-typed value used between acquire and release is the shard value, and a cursor positioned there lies in that block", 3)
 	for fn := range r.P.modFunc {
 		if !r.P.inColumnPkg(fn) {
 			continue
@@ -707,11 +729,11 @@ func ruleL5id(r *Report) {
 		call := ins.(*ssa.Call)
 		fn := ins.Parent()
 		stored, passed := false, false
-		allInstrs(fn, func(i2 ssa.Instruction) {
+		deepVisit(fn, func(i2, _ ssa.Instruction) {
 			if st, ok := i2.(*ssa.Store); ok {
 				if ia, ok := st.Addr.(*ssa.IndexAddr); ok {
 					if fr, ok := loadedField(ia.X); ok && fr.Struct == "column.Collection" && fr.Field == "commits" {
-						if sameValue(st.Val, call) {
+						if sameExpr(st.Val, call) {
 							stored = true
 						}
 					}
@@ -719,7 +741,7 @@ func ruleL5id(r *Report) {
 			}
 			if cc, _, _ := callCommon(i2); cc != nil && cc.StaticCallee() == nil && !cc.IsInvoke() {
 				for _, a := range cc.Args {
-					if sameValue(a, call) {
+					if sameExpr(a, call) {
 						passed = true
 					}
 				}
@@ -784,9 +806,19 @@ func ruleL5emit(r *Report) {
 	}
 	snapSites := L.SitesOf(func(ins ssa.Instruction) bool {
 		cc, _, _ := callCommon(ins)
-		return cc != nil && calleeIs(cc, "(*column.Collection).isSnapshotting") && pathHasFn(ins.Parent(), "(*column.Txn).commit")
+		return cc != nil && calleeIs(cc, "(*column.Collection).isSnapshotting")
 	})
-	for ins, ss := range snapSites {
+	for ins, all := range snapSites {
+		// only the decisions taken on behalf of a committing transaction
+		var ss []LSite
+		for _, s := range all {
+			if pathHas(s.Ctx, "(*column.Txn).commit") {
+				ss = append(ss, s)
+			}
+		}
+		if len(ss) == 0 {
+			continue
+		}
 		n := fnName(ins.Parent())
 		if s := worstSite(ss, func(h heldSet) bool { return h.hasW("latch") }); s != nil {
 			o := hem.Bad("recording?/"+n, r.P.InstrPos(ins), "whether a snapshot is recording is decided outside the block's exclusive latch")
